@@ -55,7 +55,8 @@ def stateStr (s : St α) : String :=
     s!"S {tw} {boolStr s.rev} {s.cs.length} {s.buf.length} {Fmt.hex s.min} {Fmt.hex s.max} {hex64 (fold64 l)}"
 
 def dumpStr (s : St α) : String :=
-  "D " ++ joinSp (s.cs.map (fun c => s!"{Fmt.hex c.mean}:{c.weight}")) ++ " B " ++ joinSp (s.buf.map Fmt.hex)
+  if s.totalWeight ≤ 1 then "D B" else   -- the image of an empty / single-value digest has no centroid section
+  "D" ++ String.join (s.cs.map (fun c => s!" {Fmt.hex c.mean}:{c.weight}")) ++ " B" ++ String.join (s.buf.map (fun v => " " ++ Fmt.hex v))
 
 def parseAll (ws : List String) : Option (List α) := ws.mapM Fmt.parse
 
